@@ -41,7 +41,10 @@ func (s *Sem) anchors() *Anchors {
 			transportImpl[f] = true
 		}
 	}
-	envIface := p.LimeT.Scope().Lookup("envelope")
+	var envIface types.Object
+	if et := p.Type("envelope"); et != nil {
+		envIface = et.Obj()
+	}
 	for _, fn := range p.LimeFuncs() {
 		if transportImpl[topLevel(fn)] {
 			continue
